@@ -254,7 +254,8 @@ def refusal_honoured(ctx: Ctx):
         rules.rule_callers(ctx, "D4", name, ok, f"{name} is reached only from move() when the battery is empty", 1)
 
 
-def dropoff(ctx: Ctx):
+def dropoff(ctx: Ctx, reported_only: bool = False):
+    """reported_only (C19): only the clauses that decide WHETHER the drop-off (and with it its report) happens"""
     repo = ctx.repo
     drop = repo.func(SOPS, "drop_off_trip")
 
@@ -314,6 +315,8 @@ def dropoff(ctx: Ctx):
         ctx.check(dropped, "D5", "DU.provenance", "ServicingTrip._perform_update: whenever the moved vehicle's route is empty the passengers are dropped off in this very update", fn, p.end,
                   why_bad=f"path [{p.cond_text()[:260]}] finishes the route without calling drop_off_trip: the next update goes straight to the terminal transition, the request is never dropped off",
                   construct="ServicingTrip._perform_update:dropoff-skipped")
+    if reported_only:
+        return
     # destination check inside drop_off_trip (shared with C07-D5)
     from .c07 import dropoff as c07_dropoff
     c07_dropoff(ctx)
